@@ -273,7 +273,7 @@ def dummy_arg(p):
 # C10 oracle: the status matrix
 # ------------------------------------------------------------------------------------------------
 
-def c10_oracle(pkg, iface, statuses, bodies, faults, redirect=None, retry=None, logged=None, logged_statuses=None):
+def c10_oracle(pkg, iface, statuses, bodies, faults, redirect=None, retry=None, logged=None, logged_statuses=None, configured=None):
     """redirect: None | (firsts, seconds, bodies);  retry: None | {n: [script specs]}"""
     n = iface["name"]
     lines = ["package " + pkg, "", 'import (', '\t"context"', '\t"net/http"', "", '\t"github.com/lopolopen/shoot"', '\t"github.com/lopolopen/shoot/middleware"', '\t"verifcases/vrest"', ")", "",
@@ -305,6 +305,14 @@ def c10_oracle(pkg, iface, statuses, bodies, faults, redirect=None, retry=None, 
         firsts, seconds, rbodies = redirect
         lines.append('\tvrest.RedirectLegs(emit, sc, hc, verifMethods(c), []int{%s}, []int{%s}, []string{%s})' % (
             ", ".join(str(x) for x in firsts), ", ".join(str(x) for x in seconds), ", ".join('"%s"' % b for b in rbodies)))
+    for tag, opts, cstatuses in (configured or []):
+        # a client built with a RestConf option combination; BuildMiddleware wraps http.DefaultTransport = the scripted transport
+        lines += ["\t{", "\t\told := http.DefaultTransport", "\t\tsc5 := &vrest.Script{}", "\t\thttp.DefaultTransport = sc5",
+                  '\t\tc5 := shoot.NewRest[%s](%s)' % (n, ", ".join(['shoot.BaseURL("http://verif.invalid/api")'] + list(opts))),
+                  "\t\thttp.DefaultTransport = old",
+                  '\t\tvrest.ConfiguredLegs(emit, sc5, verifMethods(c5), "%s", vrest.Statuses("%s"), []string{%s})' % (
+                      tag, cstatuses, ", ".join('"%s"' % b for b in bodies)),
+                  "\t}"]
     if logged_statuses:
         # the status x body matrix once more through logging -> two pass-through middlewares -> scripted base
         lines += ["\t{", "\t\told := http.DefaultTransport", "\t\tsc4 := &vrest.Script{}", "\t\thttp.DefaultTransport = sc4",
@@ -709,7 +717,7 @@ def c06_oracle(pkg, iface, calls, modpath):
              "\tc := shoot.NewRest[%s](shoot.BaseURL(%s)).ConfigHTTPClient(func(h *http.Client) { h.Transport = sc })" % (n, go_string(iface["base"])),
              "\t// the same calls through a client whose chain is logging -> two pass-through middlewares -> recording base",
              "\told := http.DefaultTransport", "\tscL := &vrest.Script{}", "\thttp.DefaultTransport = scL",
-             "\tcL := shoot.NewRest[%s](shoot.BaseURL(%s), shoot.Use(vrest.TagMW(1)), shoot.EnableLogging(true), shoot.Use(vrest.TagMW(2)))" % (n, go_string(iface["base"])),
+             "\tcL := shoot.NewRest[%s](shoot.BaseURL(%s), shoot.Use(vrest.TagMW(1)), shoot.EnableLogging(true), shoot.Use(vrest.TagMW(2)), shoot.Timeout(30), shoot.DefaultHeaders(map[string]string{}))" % (n, go_string(iface["base"])),
              "\thttp.DefaultTransport = old"]
     for i, c in enumerate(calls):
         m = c["m"]
